@@ -474,7 +474,7 @@ class C05(Cfg):
     model_exe = "dmodel_query"
     design_ref = "DESIGN.md §6 C05"
     technique = ("Lean 4: (1) reference evaluator of the query language with proved laws (limits, filters, paging); (2) a literal model of the SQL "
-                 "generator of query.rs for single-entity queries (SQL tree + printer) and a denotational semantics of that SQL fragment, "
+                 "generator of query.rs for entity selections with one level of sub-selections and for root-level aggregate queries count/min/max with GROUP BY / HAVING (SQL tree + printer) and a denotational semantics of that SQL fragment, "
                  "with the theorem that the generated statement computes the evaluator's result for the code as it is; "
                  "+ differential runs: generated data models, data sets and queries evaluated by the compiled evaluator and by the real "
                  "QueryParser/PreparedQueries/Query::read on SQLite, results compared structurally; for the fragment also the SQL text and the bound "
@@ -493,6 +493,9 @@ class C05(Cfg):
         "and ONE LEVEL of sub-selections through entity and array reference fields, each again with its own selections, filters, order_by, first/skip, cursors, with nullable(key) / nullable fields optional and the others mandatory (EXISTS) - "
         "SqlSem.run (tables of data) (compile q) params = eval Defects.asImplemented data q as lists of JSON objects (nested objects and arrays included), same order (undefined order = order of the data list on both sides; holds for every order of that list). "
         "The code's deviations (order-ignores-default, explicit-null-hides-default, bool-default-returned-as-number, null-param-filter-no-match, cursors dropping absent keys) are derived from the generated SQL, not assumed. "
+        "Also PROVED (C05_compile_correct_agg): AGGREGATE queries at the root - group-by scalar fields (without default) next to count(), min(f), max(f), WHERE filters on fields (literal / null / variable, CASE-default rule), "
+        "HAVING filters on aggregate aliases, order_by on selected group fields and on aliases (Model/SqlGenAgg.lean: aggregate get_fields, get_group_by, get_having_filters; Model/SqlSemAgg.lean: GROUP BY on SQL values, count/min/max over non-NULL values with NULL < numbers < texts, bare columns, HAVING) - "
+        "SqlSem.runA = eval (evalGroups) for every data set whose min/max fields store numbers or texts only; the fragment stops at: first/skip/cursors on grouped queries (the evaluator has none), avg()/sum() (floats, not in the evaluator), group fields with a default, WHERE filters on aliases. "
         "Tie of these theorems to the code, on every run: for every generated query of the fragment the text printed by `render (compile q)` equals SingleQuery.sql_query byte for byte, the bound values equal those of build_query_params, "
         "the rows SqlSem.run predicts equal the rows the real SQLite returns (tie groups as multisets), and the modelled _node and _edge tables equal the stored ones (signatures sql-text-mismatch, sql-semantics-mismatch). "
         "Outside the fragment (sub-selections deeper than one level or whose key is the alias of the parent table, aggregates, json selectors, reference null tests, search) the statement `the SQL compiler implements eval` is NOT proved: it is decided by the differential run of every check: generated data models "
@@ -501,8 +504,8 @@ class C05(Cfg):
         "and by the real QueryParser + PreparedQueries + Query::read on SQLite; the JSON results are compared structurally (rows that tie on every visible order key as multisets). "
         "An independent second evaluator of the intended semantics (Python) is the oracle: every difference between it and the implementation must be explained by a listed deviation.")
     level_note = (
-        "Proved: laws of the evaluator, and - for entity selections with at most one level of sub-selections through reference fields (no aggregate, no json selector, no search, no reference null test; literal first/skip and cursor values; sub-selection keys other than the root alias) - that the SQL the compiler MODEL generates means the evaluator's result "
-        "under the trusted SQL semantics Model/SqlSem.lean + SqlSemSub.lean (three-valued comparisons, NULL < numbers < texts, -> / ->> / Ifnull / json_object on JSON scalars, WHERE alias `value`, stable ORDER BY, LIMIT/OFFSET, `_edge JOIN _node` correlated on the parent row, scalar sub-query / json_group_array / EXISTS). "
+        "Proved: laws of the evaluator, and - for root-level aggregate queries (count/min/max, group fields, WHERE, HAVING, order_by; no limits) and for entity selections with at most one level of sub-selections through reference fields (no json selector, no search, no reference null test; literal first/skip and cursor values; sub-selection keys other than the root alias) - that the SQL the compiler MODEL generates means the evaluator's result "
+        "under the trusted SQL semantics Model/SqlSem.lean + SqlSemSub.lean + SqlSemAgg.lean (three-valued comparisons, NULL < numbers < texts, -> / ->> / Ifnull / json_object on JSON scalars, WHERE alias `value`, stable ORDER BY, LIMIT/OFFSET, `_edge JOIN _node` correlated on the parent row, scalar sub-query / json_group_array / EXISTS; GROUP BY, count/min/max, bare columns from the first row of a group, HAVING). "
         "What ties the compiler model and the SQL semantics to query.rs and to SQLite is differential (sampled): text and bound values byte for byte, predicted rows vs real rows. The parser (query text -> EntityQuery: names, is_selected, typing) is not modelled: "
         "the fragment predicate `inFragment` states what it guarantees (distinct keys, aliases name a scalar selection, null literal only on nullable fields, cursor arity). "
         "Everything outside the fragment is differential only. "
@@ -514,8 +517,8 @@ class C05(Cfg):
         "The paging theorem's hypothesis is that the order-key tuples of the selected rows are pairwise different (and present, for the code as it is); that the result is sorted is a theorem (C05_result_sorted).")
     trusted_base = [
         "hand-written evaluator lean/DiscretModel/Model/Query.lean, tied to the code by the differential run (dv-query vs dmodel_query)",
-        "lean/DiscretModel/Model/SqlSem.lean, SqlSemSub.lean: the semantics of the generated SQL fragment (our statement of what SQLite does), validated against the real SQLite by the sqlck stream",
-        "lean/DiscretModel/Model/SqlGen.lean, SqlGenSub.lean: model of the SQL generator, validated byte for byte (text and bound values) against PreparedQueries::build by the sqlck stream",
+        "lean/DiscretModel/Model/SqlSem.lean, SqlSemSub.lean, SqlSemAgg.lean: the semantics of the generated SQL fragment (our statement of what SQLite does), validated against the real SQLite by the sqlck stream",
+        "lean/DiscretModel/Model/SqlGen.lean, SqlGenSub.lean, SqlGenAgg.lean: model of the SQL generator, validated byte for byte (text and bound values) against PreparedQueries::build by the sqlck stream",
         "harness/query: builds the data model, rows and query text from the op lines, canonicalises the JSON result (uids -> row numbers, tie runs sorted)",
         "checks/C05.py: the second (Python) evaluator used as oracle",
         "SQLite 3.45.3 (ORDER BY on mixed types, json functions) as observed",
